@@ -20,6 +20,7 @@ import (
 	"math/rand"
 	"sort"
 	"strconv"
+	"sync"
 	"testing"
 	"time"
 
@@ -148,6 +149,7 @@ type c08Op struct {
 	Pods    []c08Rep `json:"pods"`
 	Nd      *c08Node `json:"nd"`
 	Variant int      `json:"variant"`
+	Ops     []*c08Op `json:"ops,omitempty"` // par: reserve / unreserve of distinct pods issued concurrently
 }
 
 // ------------------------------------------------------------------------------------------------ object builders
@@ -555,6 +557,12 @@ func c08Event(o *c08Op) vu.Ev {
 		ev["pod"], ev["oldNode"] = o.Pod, o.OldNode
 	case "podDelete":
 		ev["pod"], ev["tomb"] = o.Pod, o.Tomb
+	case "par":
+		subs := []vu.Ev{}
+		for _, x := range o.Ops {
+			subs = append(subs, c08Event(x))
+		}
+		ev["ops"] = subs
 	case "metric":
 		agg, pods := o.Agg, o.Pods
 		if agg == nil {
@@ -609,6 +617,38 @@ func (w *c08World) apply(ctx context.Context, o *c08Op, ev vu.Ev) bool {
 		}
 		delete(w.resv, o.Pod.UID)
 		w.pl.Unreserve(ctx, framework.NewCycleState(), obj, o.Node)
+	case "par":
+		// the world's own bookkeeping first (sequentially), then the real calls from goroutines released together
+		var calls []func()
+		for _, x := range o.Ops {
+			x := x
+			obj := w.assumed(x.Pod, x.Node)
+			switch x.Op {
+			case "reserve":
+				w.resv[x.Pod.UID] = c08Resv{x.Node, obj}
+				calls = append(calls, func() { w.pl.Reserve(ctx, framework.NewCycleState(), obj, x.Node) })
+			case "unreserve":
+				if r, ok := w.resv[x.Pod.UID]; ok {
+					obj = r.obj
+				}
+				delete(w.resv, x.Pod.UID)
+				calls = append(calls, func() { w.pl.Unreserve(ctx, framework.NewCycleState(), obj, x.Node) })
+			default:
+				w.t.Fatalf("c08: %q inside par", x.Op)
+			}
+		}
+		start := make(chan struct{})
+		var wg sync.WaitGroup
+		for _, c := range calls {
+			wg.Add(1)
+			go func(c func()) {
+				defer wg.Done()
+				<-start
+				c()
+			}(c)
+		}
+		close(start)
+		wg.Wait()
 	case "podAdd":
 		obj := c08BuildPod(o.Pod)
 		w.api[o.Pod.UID] = obj
@@ -1110,6 +1150,30 @@ func c08Random(t *testing.T, rec *vu.Recorder, rng *rand.Rand, c *c08Cfg, steps 
 				g.hasM[n] = false
 				g.emit(&c08Op{Op: "metricDelete", Node: n})
 			}
+		case k < 34:
+			// concurrent Reserve / Unreserve of distinct pods on ONE node: the pods reserved there are rolled back while
+			// pending pods are reserved there (emptying and re-filling a node's entry at the same time)
+			n := g.node()
+			par := &c08Op{Op: "par"}
+			for _, name := range names {
+				gp := g.pods[name]
+				if !gp.live || gp.cur.Node != "" || gp.cur.Term {
+					continue
+				}
+				switch {
+				case gp.resv == n:
+					par.Ops = append(par.Ops, &c08Op{Op: "unreserve", Pod: c08CopyPod(gp.cur), Node: n})
+					gp.resv = ""
+				case gp.resv == "" && rng.Intn(3) > 0:
+					par.Ops = append(par.Ops, &c08Op{Op: "reserve", Pod: c08CopyPod(gp.cur), Node: n})
+					gp.resv = n
+				}
+			}
+			if len(par.Ops) >= 2 {
+				g.emit(par)
+			} else if len(par.Ops) == 1 {
+				g.emit(par.Ops[0])
+			}
 		case k < 75:
 			g.podOp(names[rng.Intn(len(names))])
 		case k < 96:
@@ -1380,5 +1444,63 @@ func TestVerifC08(t *testing.T) {
 	for i := 0; i < nseg; i++ {
 		c08Random(t, rec, rng, cfgs[i%ncfg], steps/2+rng.Intn(steps))
 	}
+	// churn: one node, pods reserved and rolled back concurrently over and over (a node's entry is emptied and re-filled
+	// at the same moment), sometimes with a report arriving / leaving in between
+	nchurn, rounds := 40, 40
+	if vu.Thorough() {
+		nchurn, rounds = 400, 60
+	}
+	for i := 0; i < nchurn; i++ {
+		c08Churn(t, rec, rng, cfgs[i%ncfg], rounds)
+	}
 	t.Logf("c08: %d segments, %d events", rec.Segments(), rec.Events())
+}
+
+func c08Churn(t *testing.T, rec *vu.Recorder, rng *rand.Rand, c0 *c08Cfg, rounds int) {
+	c := *c0
+	c.Nodes = []string{"n1"}
+	b, _ := json.Marshal(&c)
+	var m vu.Ev
+	_ = json.Unmarshal(b, &m)
+	rec.Reset(m)
+	w := c08NewWorld(t, &c)
+	names := []string{"p1", "p2", "p3", "p4", "p5"}
+	g := c08NewGen(rng, &c, names)
+	for _, n := range names {
+		p := g.newPod(n)
+		g.pods[n].live, g.pods[n].cur = true, p
+		w.exec(&c08Op{Op: "podAdd", Pod: c08CopyPod(p)}, rec)
+	}
+	for r := 0; r < rounds; r++ {
+		par := &c08Op{Op: "par"}
+		for _, n := range names {
+			gp := g.pods[n]
+			switch {
+			case gp.resv != "":
+				par.Ops = append(par.Ops, &c08Op{Op: "unreserve", Pod: c08CopyPod(gp.cur), Node: "n1"})
+				gp.resv = ""
+			case rng.Intn(3) > 0:
+				par.Ops = append(par.Ops, &c08Op{Op: "reserve", Pod: c08CopyPod(gp.cur), Node: "n1"})
+				gp.resv = "n1"
+			}
+		}
+		if len(par.Ops) >= 2 {
+			w.exec(par, rec)
+		} else if len(par.Ops) == 1 {
+			w.exec(par.Ops[0], rec)
+		}
+		if rng.Intn(10) == 0 {
+			g.ops = g.ops[:0]
+			if g.hasM["n1"] && rng.Intn(2) == 0 {
+				g.hasM["n1"] = false
+				g.emit(&c08Op{Op: "metricDelete", Node: "n1"})
+			} else {
+				g.metricOp("n1")
+			}
+			for _, o := range g.ops {
+				w.exec(o, rec)
+			}
+		}
+	}
+	w.exec(&c08Op{Op: "rebuild", Variant: rng.Intn(4)}, rec)
 }
